@@ -84,6 +84,30 @@ def main():
         write(pb, bad)
         acc, line = tlc_trace("ClosureTrace", pb)
         expect((not acc) and line == i + 1, "ClosureTrace rejects %s at line %d (rejected at %s)" % (what, i + 1, line), failures)
+    # ---- declarations read off the tree (Ast.tla) against the validated file
+    import frontend
+    recs = frontend.ast_records([open(f, encoding="utf-8").read() for f in pipeline.repo_grammar_files()][:8] + [c["src"] for c in cases[:10]])
+    def ajudge(rs, name):
+        path = os.path.join(wd, name)
+        write(path, rs)
+        r = common.tlc("AstJudge", env={"OBS": path}, workers=1, timeout=900, xmx="3g")
+        if r.error:
+            raise ToolError("AstJudge failed:\n" + r.error)
+        return {j["id"]: j for j in r.tagged("AJUDGE")}
+    good = ajudge(recs, "ast_good.ndjson")
+    expect(len(good) == len(recs) and all(j["ok"] for j in good.values()), "AstJudge finds the validated files of %d accepted files equal to their declarations" % len(recs), failures)
+    bad = copy.deepcopy(recs)
+    v1 = next(r for r in bad if any(len(x["rhs"]) >= 2 and x["rhs"][0] != x["rhs"][1] for x in r["g"]["rules"]))
+    x = next(x for x in v1["g"]["rules"] if len(x["rhs"]) >= 2 and x["rhs"][0] != x["rhs"][1])
+    x["rhs"][0], x["rhs"][1] = x["rhs"][1], x["rhs"][0]
+    v2 = next(r for r in bad if r is not v1 and len(r["g"]["nts"]) >= 2)
+    v2["g"]["nts"] = v2["g"]["nts"][::-1]
+    v3 = next(r for r in bad if r is not v1 and r is not v2)
+    v3["kinds"] = v3["kinds"][:-1]
+    res = ajudge(bad, "ast_bad.ndjson")
+    expect(not res[v1["id"]]["ok"] and "field symbols" in res[v1["id"]]["why"], "AstJudge rejects two swapped field symbols in one production", failures)
+    expect(not res[v2["id"]]["ok"] and "nonterminals" in res[v2["id"]]["why"], "AstJudge rejects a reversed nonterminal order", failures)
+    expect(not res[v3["id"]]["ok"] and "not a sentence" in res[v3["id"]]["why"], "AstJudge rejects a token sequence that is not a sentence (last token dropped)", failures)
     # ---- tokenizer traces
     srcs = lexer.repo_sources()[:6] + ["start S // é€😀\n#[a(b)] struct S { a: $A }\nterminal T { $A: x::Y<(), z> }\n", "#[(]", "$start x"]
     toks = common.kv("tokenize", [{"id": i, "src": s, "want": ["lexev"]} for i, s in enumerate(srcs)])
